@@ -22,7 +22,7 @@ FAMILIES = {
     "luminosity": ["erg/s", "W", "L_sun", "L_bol0"],
     "pressure": ["erg/cm**3", "J/m**3"],
     "temperature": ["K"],
-    "dimensionless": ["", "dimensionless"],
+    "dimensionless": ["", "dimensionless", "percent", "ppm", "deg", "cm/m"],   # incl. scaled dimensionless units
     "magnetic": ["G"],
 }
 FAMILY_NAMES = sorted(FAMILIES)
@@ -67,7 +67,8 @@ def scale_dims(unit):
     if hit is not None:
         return hit
     q = (1.0 * unit).to_base_units()
-    dims = tuple(sorted((k, round(float(v), 9)) for k, v in q.units._units.items() if v != 0))
+    # pint treats the radian as a dimensionless base unit: it carries no dimension here either
+    dims = tuple(sorted((k, round(float(v), 9)) for k, v in q.units._units.items() if v != 0 and k != "radian"))
     out = (float(q.magnitude), dims)
     try:
         _cache[key] = out
